@@ -374,14 +374,30 @@ PROPS = {
 
 # The regenerated decoders (tools/decgen -> lean/Bmc/Gen/Dec.lean) and their equality with the hand models
 # (lean/Bmc/Proofs/GenDec.lean) support C05, C07 and C17 alike.
-GENDEC_LAYERS = 26
-_GENDEC_CLAIM = (" REGENERATED MODELS: the decoders of %d layers are RE-TRANSLATED from the Go source on every run (tools/decgen -> Gen/Dec.lean) and proved "
-                 "equal to the models the theorems are about, for every receiver and every Go slice (Proofs/GenDec.lean: T_gen_eq): a source change "
-                 "to a decoder breaks a proof obligation at build time." % GENDEC_LAYERS)
+GENDEC_LAYERS = 29
+GENDEC = ["Bmc.Proofs.GenDec.TranslatedOk", "Bmc.Proofs.GenDec.ReserveSDRRepositoryRsp", "Bmc.Proofs.GenDec.GetSystemGUIDRsp", "Bmc.Proofs.GenDec.SetSessionPrivilegeLevelRsp", "Bmc.Proofs.GenDec.GetSDRRsp", "Bmc.Proofs.GenDec.SDR", "Bmc.Proofs.GenDec.GetSensorReadingRsp", "Bmc.Proofs.GenDec.GetChannelCipherSuitesRsp", "Bmc.Proofs.GenDec.GetChannelAuthenticationCapabilitiesRsp", "Bmc.Proofs.GenDec.GetSDRRepositoryInfoRsp", "Bmc.Proofs.GenDec.GetPowerReadingRsp", "Bmc.Proofs.GenDec.GetChassisStatusRsp", "Bmc.Proofs.GenDec.GetDeviceIDRsp", "Bmc.Proofs.GenDec.RAKPMessage4", "Bmc.Proofs.GenDec.RAKPMessage2", "Bmc.Proofs.GenDec.RAKPMessage1", "Bmc.Proofs.GenDec.V1Session", "Bmc.Proofs.GenDec.GetSessionInfoRsp", "Bmc.Proofs.GenDec.OpenSessionRsp", "Bmc.Proofs.GenDec.GetDCMICapabilitiesInfoManageabilityAccessAttrsRsp", "Bmc.Proofs.GenDec.GetDCMICapabilitiesInfoOptionalPlatformAttrsRsp", "Bmc.Proofs.GenDec.GetDCMICapabilitiesInfoSupportedCapabilitiesRsp", "Bmc.Proofs.GenDec.GetDCMICapabilitiesInfoMandatoryPlatformAttrsRsp", "Bmc.Proofs.GenDec.SessionSelector", "Bmc.Proofs.GenDec.Message", "Bmc.Proofs.GenDec.GetDCMICapabilitiesInfoEnhancedSystemPowerStatisticsAttrsRsp", "Bmc.Proofs.GenDec.GetDCMISensorInfoRsp",
+          # decgen2: signed narrow integers / closed sums / map literals / float idioms / loops with fuel / external calls as parameters
+          "Bmc.Proofs.GenDec.FullSensorRecord", "Bmc.Proofs.GenDec.V2Session", "Bmc.Proofs.GenDec.AES128CBC"]
+_GENDEC_CLAIM = (" REGENERATED MODELS: the decoders of %d layers (every DecodeFromBytes of pkg/ipmi and pkg/dcmi; the translator gives up on none) are "
+                 "RE-TRANSLATED from the Go source on every run (tools/decgen -> Gen/Dec.lean) and proved "
+                 "equal to the models the theorems are about, for every receiver and every Go slice (Proofs/GenDec/*.lean: T_gen_eq): a source change "
+                 "to a decoder breaks a proof obligation at build time. External calls are parameters of the regenerated definitions "
+                 "(executeHash(s.IntegrityAlgorithm, .) of V2Session; CBC decryption of AES128CBC, block size 16 from aes.NewCipher); loops the translator "
+                 "cannot bound structurally run with fuel and the equality shows the fuel suffices." % GENDEC_LAYERS)
 for _p in ("C05", "C07", "C17"):
     PROPS[_p]["claim"] += _GENDEC_CLAIM
-    PROPS[_p]["proofs"] = PROPS[_p]["proofs"] + ["Bmc.Proofs.GenDec.TranslatedOk", "Bmc.Proofs.GenDec.ReserveSDRRepositoryRsp", "Bmc.Proofs.GenDec.GetSystemGUIDRsp", "Bmc.Proofs.GenDec.SetSessionPrivilegeLevelRsp", "Bmc.Proofs.GenDec.GetSDRRsp", "Bmc.Proofs.GenDec.SDR", "Bmc.Proofs.GenDec.GetSensorReadingRsp", "Bmc.Proofs.GenDec.GetChannelCipherSuitesRsp", "Bmc.Proofs.GenDec.GetChannelAuthenticationCapabilitiesRsp", "Bmc.Proofs.GenDec.GetSDRRepositoryInfoRsp", "Bmc.Proofs.GenDec.GetPowerReadingRsp", "Bmc.Proofs.GenDec.GetChassisStatusRsp", "Bmc.Proofs.GenDec.GetDeviceIDRsp", "Bmc.Proofs.GenDec.RAKPMessage4", "Bmc.Proofs.GenDec.RAKPMessage2", "Bmc.Proofs.GenDec.RAKPMessage1", "Bmc.Proofs.GenDec.V1Session", "Bmc.Proofs.GenDec.GetSessionInfoRsp", "Bmc.Proofs.GenDec.OpenSessionRsp", "Bmc.Proofs.GenDec.GetDCMICapabilitiesInfoManageabilityAccessAttrsRsp", "Bmc.Proofs.GenDec.GetDCMICapabilitiesInfoOptionalPlatformAttrsRsp", "Bmc.Proofs.GenDec.GetDCMICapabilitiesInfoSupportedCapabilitiesRsp", "Bmc.Proofs.GenDec.GetDCMICapabilitiesInfoMandatoryPlatformAttrsRsp", "Bmc.Proofs.GenDec.SessionSelector", "Bmc.Proofs.GenDec.Message", "Bmc.Proofs.GenDec.GetDCMICapabilitiesInfoEnhancedSystemPowerStatisticsAttrsRsp", "Bmc.Proofs.GenDec.GetDCMISensorInfoRsp"]
-    PROPS[_p]["modelled"] = PROPS[_p]["modelled"] + ["layers decgen gives up on (listed in Gen/Dec.lean: gaveUp, with reasons) stay hand models tied by correspondence only"]
+    PROPS[_p]["proofs"] = PROPS[_p]["proofs"] + GENDEC
+    PROPS[_p]["modelled"] = PROPS[_p]["modelled"] + ["layers decgen gives up on (listed in Gen/Dec.lean: gaveUp, with reasons; none at delivery of decgen2) stay hand models tied by correspondence only",
+                                                     "regenerated decoders: Go int is Z (no wrap at 2^63); int(math.Ceil/Floor(float64(e)/2^k)) is exact ceiling/floor division (|e| < 2^53); a zero-value AES128CBC (nil cipher) is outside the translation"]
+
+# parseCipherSuiteRecordData (cipher_suites.go) is not a layer method; its regenerated translation is proved equal to the model C16 and C12 are about.
+_GENSUITES_CLAIM = (" REGENERATED MODEL: parseCipherSuiteRecordData is RE-TRANSLATED from cipher_suites.go on every run (tools/decgen -> Gen/Dec.lean: "
+                    "bmc_parseCipherSuiteRecordData, its three `for` loops with fuel len(joined)+1, the nested range product as folds) and proved equal "
+                    "to the model parseRecords on the bytes of every Go slice, never out of fuel (Proofs/GenDec/CipherSuiteRecords.lean: "
+                    "parseCipherSuiteRecordData_gen_eq, parseCipherSuiteRecordData_fuel).")
+for _p in ("C16", "C12"):
+    PROPS[_p]["claim"] += _GENSUITES_CLAIM
+    PROPS[_p]["proofs"] = PROPS[_p]["proofs"] + ["Bmc.Proofs.GenDec.CipherSuiteRecords"]
 
 # The regenerated serialisers (tools/encgen -> lean/Bmc/Gen/Enc.lean) and their equality with the hand encoder models
 # (lean/Bmc/Proofs/GenEnc.lean) support C06 and C08 alike.
